@@ -181,9 +181,9 @@ func zzSSEHandler() {
 	h.sessions["A"] = tA
 	locals := []string{"127.0.0.1:8080", "[::1]:8080", "192.0.2.10:8080", ""}
 	localIsLoopback := []bool{true, true, false, false}
-	hosts := []string{"localhost:8080", "127.0.0.1:8080", "evil.example", "evil.example:8080", "[::1]:8080"}
-	hostIsLoopback := []bool{true, true, false, false, true}
-	li, hi := vChoice("localAddr", 4), vChoice("host", 5)
+	hosts := []string{"localhost:8080", "127.0.0.1:8080", "evil.example", "evil.example:8080", "[::1]:8080", "notlocalhost:8080", "localhost.evil.example", "127.0.0.1.evil.example:80", "evil.example.mylocalhost", "localhost"}
+	hostIsLoopback := []bool{true, true, false, false, true, false, false, false, false, true}
+	li, hi := vChoice("localAddr", 4), vChoice("host", len(hosts))
 	ctx := context.Background()
 	if locals[li] != "" {
 		ctx = context.WithValue(ctx, http.LocalAddrContextKey, net.Addr(zzAddr(locals[li])))
